@@ -344,7 +344,8 @@ func c19(r *rt.Run) {
 	specs := []predSpec{
 		{"z", 0, [][]int64{{}}}, {"y", 0, [][]int64{{}}},
 		{"p", 1, [][]int64{{1}, {2}}}, {"q", 2, [][]int64{{1, 2}, {2, 1}}}, {"r", 3, [][]int64{{1, 2, 3}, {1, 1, 1}}},
-		{"e", 1, nil}, // listed but empty
+		{"p", 2, [][]int64{{1, 2}, {2, 2}}}, // same symbol as p/1, different arity
+		{"e", 1, nil},                      // listed but empty
 	}
 	var layouts [][]int
 	var recL func(cur []int)
@@ -513,6 +514,6 @@ func c19(r *rt.Run) {
 	r.Sample(map[string]any{"constant_families": []string{"string", "bytes", "name", "name-with-percent", "number", "time", "duration", "float", "structured"}, "example": consts[200].String()})
 	r.Sample(map[string]any{"layout": "z/0 p/1 q/2 with 1,2,0 facts", "formats": formats})
 	r.Finish("(i) stores {p(c)} and {q(c,c'),q(c',c)} for every constant of the printable universe (all single-byte strings and bytes, names over every permitted character incl. %, boundary numbers/times/durations, floats, ~1700-5000 structured values); " +
-		"(ii) every ordered layout of 1-3 (thorough 4) predicates from z/0,y/0,p/1,q/2,r/3,e/1(empty but listed) with 0-2 facts each; formats plain/gzip/zstd, deterministic on/off; read back eagerly into 3 store kinds and lazily with every pattern query; " +
+		"(ii) every ordered layout of 1-3 (thorough 4) predicates from z/0,y/0,p/1,q/2,r/3,p/2 (same symbol as p/1),e/1(empty but listed) with 0-2 facts each; formats plain/gzip/zstd, deterministic on/off; read back eagerly into 3 store kinds and lazily with every pattern query; " +
 		"(iii) hand-written headers listing empty zero-arity predicates; (iv) every insertion order of 3 fact sets into 4 store kinds written deterministically (byte equality)")
 }
